@@ -36,7 +36,7 @@ import (
 func TestMain(m *testing.M) { hx.Main(m) }
 
 type c20Spec struct {
-	Kind  string   `json:"kind"`            // recv | lock | send | dur | reject | ival | given | multi | sendto
+	Kind  string   `json:"kind"`            // recv | lock | send | dur | reject | ival | given | multi | sendto | big
 	Proto string   `json:"proto,omitempty"` // macat's protocol option
 	Tr    string   `json:"tr,omitempty"`    // tcp | ipc
 	Bind  bool     `json:"bind,omitempty"`  // macat binds and the harness dials (else macat connects)
@@ -211,6 +211,10 @@ func TestC20(t *testing.T) {
 	for _, sp := range sendtoSpecs(rnd, off, r.Pick(14, 700), r.Thorough()) {
 		add(sp)
 	}
+	// large payloads: 64 KiB up to a few MiB given to macat, up to just under 1 MiB printed by it (appended last again)
+	for _, sp := range bigSpecs(rnd, off, r.Pick(22, 1400)) {
+		add(sp)
+	}
 	r.Run(cases, func(c *mon.Case) {
 		defer func() {
 			if x := recover(); x != nil {
@@ -243,6 +247,8 @@ func TestC20(t *testing.T) {
 			runMulti(c, sp)
 		case "sendto":
 			runSendto(c, sp)
+		case "big":
+			runBig(c, sp)
 		}
 	})
 }
@@ -519,6 +525,11 @@ func sameBytes(c *mon.Case, p *mproc, got, want []byte, dname, what string) bool
 		c.Count("sent_messages_compared", 1)
 		c.Count("sent_bytes_compared", len(want))
 		return true
+	}
+	if bindLost(p) {
+		c.Count("unexpected_exit", 1)
+		c.Inconclusive("%s: macat could not bind its address (taken by another process), what arrived there is not macat's: %s", what, p.describe())
+		return false
 	}
 	s, d := firstDiff(got, want)
 	if bytes.Equal(got, []byte(string([]rune(string(want))))) {
